@@ -1,6 +1,6 @@
 --------------------------- MODULE Trace_Segments ---------------------------
 (* Validate executions of packet_generator(combine_segmented_packets=True) against Segments.             *)
-(* One trace per ndjson line: {tid, pk:[[apid,flag,seq]..], outs:[[ids]..], gaps, nostarts}               *)
+(* One trace per ndjson line: {tid, pk:[[apid,flag,seq]..], outs:[[ids]..], gaps, nostarts, other}               *)
 (* pk is the raw packet history fed to the generator (ids are positions), outs the outputs the real       *)
 (* generator yielded, identified by which raw packets' payload bytes they contain, in order.              *)
 (* The model is stepped over pk with Segments!Step; its outputs and warning counts must equal the log.    *)
@@ -28,7 +28,9 @@ Consume == /\ st = "run" /\ l <= Len(T.pk)
 
 Verdict == /\ st = "run" /\ l = Len(T.pk) + 1
            /\ LET okOuts == mouts = T.outs
-                  okWarn == ngap = T.gaps /\ nnostart = T.nostarts
+                  \* T.other: drop warnings whose wording the harness does not recognise (the property does not fix the wording);
+                  \* recognised ones may not exceed their kind, all together must add up (equality per kind when other = 0)
+                  okWarn == T.gaps <= ngap /\ T.nostarts <= nnostart /\ T.gaps + T.nostarts + T.other = ngap + nnostart
                   inv == OpenUnused /\ OpenShape
               IN /\ st' = IF okOuts /\ okWarn /\ inv THEN "accepted" ELSE "rejected"
                  /\ PrintT(<<IF okOuts /\ okWarn /\ inv THEN "ACCEPT" ELSE "REJECT", tid,
